@@ -42,6 +42,13 @@ d3 = N('scxml', 0, [N('parallel', 1, [
 # FD5 (fast engine): parallel done event
 fd5 = N('scxml', 0, [N('parallel', 1, [N('state', 2, [N('final', 3)])])])
 
+# K-HO: history values share one bit array: the shallow history of s7 records s8 when s7 is exited, and the deep
+# history of the still active s6 takes that bit for its own value: s8 is entered without s7 (illegal configuration)
+kho = N('scxml', 0, [N('state', 6, [N('hd', 10, trans=[T(102, None, None, [7])]),
+                                    N('state', 7, [N('hs', 11, trans=[T(103, None, None, [8])]),
+                                                   N('initial', 12, trans=[T(104, None, None, [8])]),
+                                                   N('state', 8, trans=[T(504, b'e', None, [10])])])])])
+
 CORPUS = [
     ('d1-exit-interval', d1, [b'go', b'e'], 'null'),
     ('d2-targetless', d2, [b'e'], 'null'),
@@ -52,4 +59,5 @@ CORPUS = [
     ('d4-parallel-regions', d4, [b'e'], 'null'),
     ('d3-sticky-bits', d3, [b'ee', b'back', b'ee', b'back', b'gg'], 'null'),
     ('fd5-parallel-done', fd5, [], 'null'),
+    ('kho-history-overlap', kho, [b'e'], 'null'),
 ]
